@@ -83,9 +83,25 @@ def record(sc, seed, depth):
 TRACE_SC = dict(ikemodel.BASE, MaxTrig=100000, MaxDup=100000, MaxLoss=100000, MaxAdv=0, MaxSpi=100000, StartEstablished=False, FreeRetx=True)
 
 
-def validate(traces, sc=None, timeout=900):
+CLAUSES = ('out', 'st', 'mid', 'kids', 'pending', 'kern', 'table', 'net', 'listed')
+CLAUSE_OWNER = {'out': 'C09', 'st': 'C09', 'mid': 'C08', 'kids': 'C09', 'pending': 'C09', 'kern': 'C10', 'table': 'C16', 'net': 'C09', 'listed': 'C16', 'enabled': 'C09'}
+
+
+def diagnose(trace, matched):
+    """Name the clause of the trace specification that rejects event `matched` (0-based) of a trace: the clause whose omission lets the
+    validation proceed; 'enabled' if the logged action is not enabled at all (or several clauses fail at once)."""
+    cut = trace[:matched + 1]
+    for c in CLAUSES:
+        acc, prog, _ = validate([cut], skip=(c,))
+        if prog and prog[0][0] > matched:
+            return c
+    return 'enabled'
+
+
+def validate(traces, sc=None, timeout=900, skip=()):
     """Run TLC on IkeTrace.tla over a batch of traces. Returns (accepted: bool, progress: [(matched, length)], tlc result)."""
     sc = dict(sc or TRACE_SC)
+    sc['Skip'] = tuple(skip)
     tmp = tempfile.mkdtemp(prefix='verif-trace-')
     try:
         tf = os.path.join(tmp, 'traces.json')
